@@ -143,9 +143,13 @@ type node struct {
 type elem struct {
 	c   *pki.Cert
 	der []byte
+	// misaligned: the entry does not hold exactly one certificate (empty, two concatenated, a fragment,
+	// trailing bytes); c is then only the certificate the bytes were taken from
+	misaligned bool
 }
 
-func (e elem) intact() bool  { return len(e.der) >= len(e.c.DER) }
+// intact: the entry is exactly one certificate (possibly with a flipped signature bit)
+func (e elem) intact() bool  { return !e.misaligned && len(e.der) == len(e.c.DER) }
 func (e elem) genuine() bool { return e.c.Genuine && bytes.Equal(e.der, e.c.DER) }
 
 type world struct {
@@ -664,7 +668,7 @@ func (w *world) perturb(p Perturb) string {
 		return "swap"
 	case "dup":
 		i := mod(p.I, n)
-		ins(mod(p.J, n+1), elem{c: ch[i].c, der: append([]byte{}, ch[i].der...)})
+		ins(mod(p.J, n+1), elem{c: ch[i].c, der: append([]byte{}, ch[i].der...), misaligned: ch[i].misaligned})
 		return "dup"
 	case "insert":
 		x := w.all[mod(p.K, len(w.all))]
@@ -679,6 +683,9 @@ func (w *world) perturb(p Perturb) string {
 		return "append-issuer"
 	case "flip":
 		i := mod(p.I, n)
+		if len(ch[i].der) == 0 {
+			return "noop:flip"
+		}
 		der := append([]byte{}, ch[i].der...)
 		off := mod(p.J, 16)
 		if off >= len(der) {
@@ -686,7 +693,7 @@ func (w *world) perturb(p Perturb) string {
 		}
 		der[len(der)-1-off] ^= 1 << uint(mod(p.K, 8))
 		out := append([]elem{}, ch...)
-		out[i] = elem{c: ch[i].c, der: der}
+		out[i] = elem{c: ch[i].c, der: der, misaligned: ch[i].misaligned}
 		w.chain = out
 		return "flip"
 	case "resign":
@@ -710,12 +717,17 @@ func (w *world) perturb(p Perturb) string {
 		return "resign"
 	case "trunc":
 		i := mod(p.I, n)
+		if len(ch[i].der) < 2 {
+			return "noop:trunc"
+		}
 		cut := 1 + mod(p.J, 64)
 		if cut >= len(ch[i].der) {
 			cut = len(ch[i].der) - 1
 		}
 		out := append([]elem{}, ch...)
 		out[i] = elem{c: ch[i].c, der: append([]byte{}, ch[i].der[:len(ch[i].der)-cut]...)}
+		// cutting the trailing bytes off again restores the certificate; anything else stays misaligned
+		out[i].misaligned = ch[i].misaligned && !bytes.Equal(out[i].der, ch[i].c.DER)
 		w.chain = out
 		return "trunc"
 	case "sibling":
@@ -737,6 +749,47 @@ func (w *world) perturb(p Perturb) string {
 		out[i] = elem{c: s, der: s.DER}
 		w.chain = out
 		return "sibling"
+	case "merge":
+		// two certificates in one entry, balanced by an empty entry before or after: the byte stream and the
+		// entry count are those of a well-formed chain, the entries are not certificates
+		if n < 2 {
+			return "noop:merge"
+		}
+		i := mod(p.I, n-1)
+		joined := elem{c: ch[i].c, der: append(append([]byte{}, ch[i].der...), ch[i+1].der...), misaligned: true}
+		empty := elem{c: ch[i+1].c, der: []byte{}, misaligned: true}
+		out := append([]elem{}, ch[:i]...)
+		if p.J%2 == 0 {
+			out = append(out, joined, empty)
+		} else {
+			out = append(out, empty, joined)
+		}
+		w.chain = append(out, ch[i+2:]...)
+		return "merge+empty"
+	case "shift":
+		// the boundary between two entries moved into the first certificate
+		if n < 2 {
+			return "noop:shift"
+		}
+		i := mod(p.I, n-1)
+		if len(ch[i].der) < 2 {
+			return "noop:shift"
+		}
+		k := 1 + mod(p.J*7+p.K, len(ch[i].der)-1)
+		out := append([]elem{}, ch...)
+		out[i] = elem{c: ch[i].c, der: append([]byte{}, ch[i].der[:k]...), misaligned: true}
+		out[i+1] = elem{c: ch[i+1].c, der: append(append([]byte{}, ch[i].der[k:]...), ch[i+1].der...), misaligned: true}
+		w.chain = out
+		return "shift-boundary"
+	case "emptyentry":
+		ins(mod(p.J, n+1), elem{c: ch[mod(p.I, n)].c, der: []byte{}, misaligned: true})
+		return "empty-entry"
+	case "trail":
+		i := mod(p.I, n)
+		out := append([]elem{}, ch...)
+		out[i] = elem{c: ch[i].c, der: append(append([]byte{}, ch[i].der...), make([]byte, 1+mod(p.J, 3))...), misaligned: true}
+		w.chain = out
+		return "trailing-bytes"
 	case "oldself":
 		// put the CA's own self-signed certificate in front of its (cross-)certificate: still a valid order
 		find := func(c *pki.Cert) *pki.Cert {
